@@ -778,6 +778,87 @@ def expand_keyed_arms(modules, known, rep):
                     break
 
 
+# ---------------------------------------------------------------------------------------------- N22 conditional joins
+def resolve_conditional_joins(modules, known, rep):
+    """A new local defined only as `if c: x = a else: x = b` (c a plain local or its negation, a / b plain locals or constants)
+    is, at each statement that uses it, that statement under the same test: `S(x)` -> `if c: S(a) else: S(b)` - provided c, a and b
+    are not assigned between the definition and the use."""
+    kl = known.get("locals") or {}
+    for rel, sc, fn in all_functions(modules):
+        key = f"{rel}::{sc}.{fn.name}"
+        if key not in kl:
+            continue
+        known_locals = set(kl[key])
+        params = set(_params(fn))
+        order = _preorder(fn)
+        done = True
+        rounds = 0
+        while done and rounds < 6:
+            done = False
+            rounds += 1
+            for owner, fld, stmts in list(_blocks(fn)):
+                for i, st in enumerate(stmts):
+                    if not (isinstance(st, ast.If) and len(st.body) == 1 and len(st.orelse) == 1):
+                        continue
+                    a_, b_ = st.body[0], st.orelse[0]
+                    if not all(isinstance(z, ast.Assign) and len(z.targets) == 1 and isinstance(z.targets[0], ast.Name) for z in (a_, b_)):
+                        continue
+                    x = a_.targets[0].id
+                    if b_.targets[0].id != x or x in known_locals or x in params:
+                        continue
+                    if not all(isinstance(z.value, (ast.Name, ast.Constant)) for z in (a_, b_)):
+                        continue
+                    c = st.test
+                    cn = c.operand if isinstance(c, ast.UnaryOp) and isinstance(c.op, ast.Not) else c
+                    if not isinstance(cn, ast.Name):
+                        continue
+                    stores_x = [n for n in ast.walk(fn) if isinstance(n, ast.Name) and n.id == x and isinstance(n.ctx, (ast.Store, ast.Del))]
+                    if len(stores_x) != 2:
+                        continue
+                    watch = {cn.id} | {z.value.id for z in (a_, b_) if isinstance(z.value, ast.Name)}
+                    dpos = order[id(st)]
+                    uses = [n for n in ast.walk(fn) if isinstance(n, ast.Name) and n.id == x and isinstance(n.ctx, ast.Load)]
+                    if not uses:
+                        continue
+                    last_use = max(order[id(u)] for u in uses)
+                    if any(isinstance(n, ast.Name) and n.id in watch and isinstance(n.ctx, (ast.Store, ast.Del)) and dpos < order.get(id(n), -1) < last_use
+                           and not any(n is y for y in ast.walk(st)) for n in ast.walk(fn)):
+                        continue
+                    # every use sits in a simple statement (return / assign / expression) of some block
+                    targets = []
+                    ok = True
+                    for owner2, fld2, stmts2 in list(_blocks(fn)):
+                        for k2, s2 in enumerate(stmts2):
+                            if s2 is st:
+                                continue
+                            direct = isinstance(s2, (ast.Return, ast.Assign, ast.Expr, ast.AugAssign))
+                            if direct and any(u is y for u in uses for y in ast.walk(s2)):
+                                targets.append((stmts2, s2))
+                    covered = {id(u) for stmts2, s2 in targets for u in uses if any(u is y for y in ast.walk(s2))}
+                    if covered != {id(u) for u in uses}:
+                        continue
+                    for stmts2, s2 in targets:
+                        def spec(v):
+                            class S(ast.NodeTransformer):
+                                def visit_Name(self, node):
+                                    if node.id == x and isinstance(node.ctx, ast.Load):
+                                        return ast.copy_location(copy.deepcopy(v), node)
+                                    return node
+                            return S().visit(copy.deepcopy(s2))
+                        new = ast.copy_location(ast.If(copy.deepcopy(c), [spec(a_.value)], [spec(b_.value)]), s2)
+                        ast.fix_missing_locations(new)
+                        stmts2[stmts2.index(s2)] = new
+                    stmts.remove(st)
+                    if not stmts:
+                        stmts.append(ast.Pass())
+                    rep.other.append(f"conditional join `{x}` in {sc + '.' if sc else ''}{fn.name} resolved at its {len(targets)} use(s)")
+                    done = True
+                    order = _preorder(fn)
+                    break
+                if done:
+                    break
+
+
 # ---------------------------------------------------------------------------------------------- N20 tuple locals
 def split_tuple_locals(modules, known, rep):
     """A new local that is only ever assigned tuple displays of one arity and only read as `t[<constant index>]` is that many
